@@ -200,9 +200,14 @@ func faultClass(first string) string {
 
 func checkC04(c *ev.Ctx) {
 	defer cleanupScratch()
-	c.Rule("deviation-bounded fault enumeration over the real gensign.Run: default = everything succeeds; deviations = {failure, close, empty, unknown type, truncated, oversized} at every forwarded-agent request index (challenge, private-key add, list, removes, certificate adds) for CA replies of 1..3 certificates and 0/2 certificates of an earlier run; CA error/panic at every call; stub-handler faults in Name/Authenticate/Generate/CSRs/AddCertsToAgent for 1..2 keys x 1..2 requests; nil attributes / nil handler (panic inside the handler loop). quick: every single deviation; thorough: every pair. Oracle: error-kind table from the statement keyed by the first fault that fired. non-trivial = run in which a fault fired; distinct by deviation vector")
+	c.Rule("deviation-bounded fault enumeration over the real gensign.Run: default = everything succeeds; deviations = {failure, close, empty, unknown type, truncated, oversized} at every forwarded-agent request index (challenge, private-key add, list, removes, certificate adds) for CA replies of 1..3 certificates and 0/2 certificates of an earlier run; CA error/panic at every call; stub-handler faults in Name/Authenticate/Generate/CSRs/AddCertsToAgent for 1..2 keys x 1..2 requests; nil attributes / nil handler (panic inside the handler loop); sequences of three runs that share ONE agent/ssh.AgentKey object (idempotent CA) with one agent fault (thorough: two) at every request index of the first or second run. quick: every single deviation; thorough: every pair. Oracle: error-kind table from the statement keyed by the first fault that fired. non-trivial = run in which a fault fired; distinct by deviation vector")
 	c.Assume("well-formed agent replies of the wrong message type are excluded (x/crypto's client panics on them by design; gensign.Run's recover turns that into a Panic error, which is checked separately below)")
 	if c.ReplayCase != nil {
+		var rk c04ReuseCase
+		if json.Unmarshal(c.ReplayCase, &rk) == nil && rk.Reuse {
+			c04Reuse(c, rk)
+			return
+		}
 		var k c04Case
 		json.Unmarshal(c.ReplayCase, &k)
 		c04Run(c, k)
@@ -266,6 +271,12 @@ func checkC04(c *ev.Ctx) {
 			}
 		}
 	}
+	// sequences of runs sharing one long-lived agent key object (a retrying front end), one fault per sequence
+	rc := c04ReuseCases(c.Thorough())
+	for _, k := range rc {
+		c04Reuse(c, k)
+	}
+	c.Set("reuse_sequences", len(rc))
 	c.Set("deviation_vectors", len(cases))
 	// (main runs this check in a child process: a crash that gensign.Run cannot recover from - a panic on a goroutine it
 	// started - kills that child and is reported as "the process does not keep running")
